@@ -260,7 +260,7 @@ func checkC05(c *Ctx) {
 	// the deepest inputs of this check need a few GiB in the worker: a wider memory budget than the default
 	c.Pool.Env = append(c.Pool.Env, "ZNWORKER_RSS_LIMIT_MB=10240")
 	c.Pool.LongRetry = true
-	c.rule = "inputs = every prefix of every corpus/manual program, random single/multi mutations (delete, duplicate, splice, replace from a hostile alphabet), all strings up to a length bound over critical alphabets, runs of 200 … 100000 (every bracket kind also 1.5 million; thorough: 3 million) opening brackets / operators / nested block headers; each goes through syntax.Parser.Parse under a logical tick budget and, on error, through exec.DisplayError; block headers (令： 如果 每当 遍历 如何 定义 否则 再如 拦截) whose block holds only separators / comments, names written as an empty pair of backticks; plus input-variable texts through exec.ExecVarInputText (a text the compiler rejects must reach the user with the compiler's error code and the line of the offending character). distinct_nontrivial = distinct (outcome kind, error code, first 3 tree node kinds / error line) classes among inputs that are not the empty string"
+	c.rule = "(3c) ten long flat input shapes (a literal with 15000 / 30000 escapes, U+ escapes, lone backticks, nested pairs; a comment full of quotes; thousands of short literals / backtick names; a 30000-digit number, a 30000-character name, a flat sum) compiled at size N and 2N in allocation-measuring mode: the bytes allocated must grow in proportion (ratio <= 3), a load-independent reading of 'promptly'; inputs = every prefix of every corpus/manual program, random single/multi mutations (delete, duplicate, splice, replace from a hostile alphabet), all strings up to a length bound over critical alphabets, runs of 200 … 100000 (every bracket kind also 1.5 million; thorough: 3 million) opening brackets / operators / nested block headers; each goes through syntax.Parser.Parse under a logical tick budget and, on error, through exec.DisplayError; block headers (令： 如果 每当 遍历 如何 定义 否则 再如 拦截) whose block holds only separators / comments, names written as an empty pair of backticks; plus input-variable texts through exec.ExecVarInputText (a text the compiler rejects must reach the user with the compiler's error code and the line of the offending character). distinct_nontrivial = distinct (outcome kind, error code, first 3 tree node kinds / error line) classes among inputs that are not the empty string"
 	c.assumptions = []string{"tick hooks H5 count parser progress; a budget of 64*(len+16)+2000 ticks is >10x what any accepted corpus program needs", "physical lines are split on CR, LF, CRLF, LFCR"}
 	rng := c.Rand("c05")
 	seeds := append([]string{}, corpus...)
@@ -457,6 +457,59 @@ func checkC05(c *Ctx) {
 			c.Sample(s)
 		}
 	})
+
+	// 3c. "promptly": the work of compiling long, flat inputs grows in proportion to their length.
+	// Wall time depends on the machine; the bytes the compilation allocates do not: each shape is
+	// compiled at size N and 2N, and doubling the input must not (nearly) quadruple the allocation
+	{
+		shapes := map[string]func(n int) string{
+			"literal-with-escapes":      func(n int) string { return "令甲 = 「" + strings.Repeat("`SP`", n) + "」\n" },
+			"literal-with-u-escapes":    func(n int) string { return "令甲 = “" + strings.Repeat("`U+4E2D`x", n) + "”\n" },
+			"literal-with-lone-ticks":   func(n int) string { return "令甲 = “" + strings.Repeat("a`b` ", n) + "”\n" },
+			"literal-with-nested-pairs": func(n int) string { return "令甲 = “" + strings.Repeat("“”", n) + "”\n" },
+			"comment-with-quotes":       func(n int) string { return "注：“" + strings.Repeat("「」`", n) + "”\n令甲 = 1\n" },
+			"many-short-literals":       func(n int) string { return "令甲 = 【" + strings.Repeat("“a`TAB`”，", n) + "1】\n" },
+			"many-backtick-names":       func(n int) string { return "令甲 = 【" + strings.Repeat("`名 字`，", n) + "1】\n" },
+			"long-number":               func(n int) string { return "令甲 = " + strings.Repeat("7", n) + "\n" },
+			"long-name":                 func(n int) string { return "令" + strings.Repeat("名", n) + " = 1\n" },
+			"flat-sum":                  func(n int) string { return "令甲 = " + strings.Repeat("1 + ", n/2) + "1\n" },
+		}
+		names := SortedKeys(shapes)
+		sizes := []int{15000, 30000}
+		areqs := []Req{}
+		for _, name := range names {
+			for _, n := range sizes {
+				r := parseReq([]rune(shapes[name](n)))
+				r.Mode = "alloc"
+				r.ParseBudget = 0
+				areqs = append(areqs, r)
+			}
+		}
+		kib := make([]int, len(areqs))
+		kinds := make([]string, len(areqs))
+		c.runBatches(areqs, 1, func(i int, req *Req, resp *Resp) {
+			c.Eval()
+			kinds[i] = resp.Kind
+			if len(resp.Ints) > 0 {
+				kib[i] = resp.Ints[0]
+			}
+		})
+		for k, name := range names {
+			a, b := kib[2*k], kib[2*k+1]
+			c.Nontrivial(fmt.Sprintf("alloc|%s|%s", name, kinds[2*k]))
+			c.Count("allocation_growth_shapes", 1)
+			if kinds[2*k] != kinds[2*k+1] || (kinds[2*k] != "ok" && kinds[2*k] != "error") {
+				c.Violation("alloc:outcome:"+name, fmt.Sprintf("long flat input %s: outcomes %s (N=%d) and %s (N=%d)", name, kinds[2*k], sizes[0], kinds[2*k+1], sizes[1]), map[string]interface{}{"shape": name})
+				continue
+			}
+			// linear work doubles (ratio 2), quadratic work quadruples (ratio 4); small fixed costs
+			// only lower the ratio
+			if a > 0 && b > 3*a+4096 {
+				c.Violation("alloc:growth:"+name, fmt.Sprintf("compiling the long flat input %s allocates %d KiB at N=%d and %d KiB at N=%d: doubling the input multiplies the work by %.1f (not in proportion to the length: 'terminates promptly' fails for long inputs of this shape)", name, a, sizes[0], b, sizes[1], float64(b)/float64(a)), map[string]interface{}{"shape": name, "kib": []int{a, b}})
+			}
+			c.Count("allocation_kib_"+name, int64(b))
+		}
+	}
 
 	// 4. input-variable texts
 	vin := []string{"", "A = 1", "A = 1；B = “x”", "A设为【1，2】", "A = B", "A = 其B", "A =（显示：1）", "A = 1 +", "令A = 1", "如果真：\n\tA = 1", "A#1 = 2", "A之B = 3", "1 = 2", "A = 新建", "A =（新建异常：“x”）", "A = 1 / 0", "A = “未闭合", "A = `", "：", "注：", "A = 【1，2】#3", "A = 以1（加：2）", "A = 真 且 1", "A = 其", "A = 此", "= 1", "A == 1", "A = 1\nB = A", "A = {1 + 2} * 3", "输入A", "输出 1", "抛出异常：“x”！", "A = （取随机数）",
